@@ -203,6 +203,8 @@ class PoolWorldB(object):
                             f = ch.choose(4, 'mail-reply', 'data')
                             if f:
                                 p.script['mail@%d' % txn] = {1: '4', 2: '5', 3: 'disconnect'}[f]
+                        if stage.startswith('eod') and ch.choose(2, 'eod-silent', 'data') == 1:
+                            p.script['%s@%d' % (stage, txn)] = 'stall'                 # the peer goes silent after the final dot
                         if stage == 'rset' and ch.choose(2, 'rset-reply-late', 'data') == 1:
                             p.script['rset@%d' % txn] = ('delay', 12.0)          # later than the command timeout (11 s)
                         if stage == 'mail' and cfg.get('delays'):
@@ -314,9 +316,12 @@ class PoolWorldH(object):
             net = Net(w)
             peers = []
             accepted = []
+            received = []
+            refused = [0]
 
             def create_connection(addr, timeout=None, source_address=None):
                 if cfg.get('faults') and ch.choose(2, 'connect', 'data') == 1:
+                    refused[0] += 1
                     raise _socket.error(111, 'Connection refused')
                 c, s_ = net.pair(peername=addr)
                 if cfg['pool_size'] and len(net.open) > cfg['pool_size']:
@@ -325,9 +330,13 @@ class PoolWorldH(object):
                 def responder(req, k):
                     import base64
                     sender = base64.b64decode(dict(req['headers'])['X-Envelope-Sender']).decode()
-                    f = ch.choose(3, 'http-status', 'data') if cfg.get('faults') else 0
+                    received.append(sender)
+                    f = ch.choose(4, 'http-status', 'data') if cfg.get('faults') else 0
                     if cfg.get('delays') and ch.choose(2, 'delay-response', 'sched') == 1:
                         w.env_wait('origin-replies-%s' % sender)
+                    if f == 3:
+                        gevent.sleep(12.0)          # the answer comes after the relay's timeout (9 s)
+                        f = 0
                     if f == 0:
                         accepted.append(sender)
                         return response(200, 'OK', [('X-Smtp-Reply', '250; message="2.0.0 ok for %s"' % sender)])
@@ -390,6 +399,11 @@ class PoolWorldH(object):
                         self.viol.append(('non-relay-exception', 'attempt() of %s raised %r' % (r['sender'], val)))
                     elif ('for ' in str(val.reply)) and ('for ' + r['sender']) not in str(val.reply):
                         self.viol.append(('result-of-another-request', 'attempt() of %s raised %r' % (r['sender'], val.reply)))
+                    elif r['sender'] not in received and not refused[0]:
+                        # no connection was refused, yet this request never reached the origin: it failed on the state
+                        # another request left behind in the client or its connection
+                        self.viol.append(('failed-without-reaching-the-origin', 'attempt() of %s raised %r although no connection was refused and the '
+                                          'origin never saw its request (requests seen: %r)' % (r['sender'], val.reply, received)))
             self.errors = [e for e in w.errors() if e[0] not in ('RemoteDisconnected', 'ConnectionRefusedError', 'OSError')]
         return (tuple(repr(r['outcome'])[:60] for r in callers), len(peers), tuple(sorted(set(v[0] for v in self.viol))))
 
